@@ -53,7 +53,7 @@ package metric
 // returns for them (two views that resolve to the same cached aggregate function attach it once) - the `seen` set is keyed by
 // exactly that id, and a function is appended only when its id was not seen
 //@ func (i *inserter[N]) Instrument(inst Instrument, readerAggregation Aggregation) (measures []aggregate.Measure[$N], err error)
-//@   prop C12
+//@   prop C12 C02
 //@   instances int64; float64
 //@   overflow assumed
 //@   unchecked frame,no-panic view functions, the aggregator cache and logging are outside the contracts
@@ -63,6 +63,20 @@ package metric
 //@   prop -
 //@   instances int64; float64
 //@   trusted "aggregator cache (generic cache with its own lock, pipeline registration): result arbitrary; only used as the source of the id"
+
+// the aggregate builder made for a new stream: temporality is the reader's for this instrument kind, the attribute filter is the
+// view's, and the cardinality limit is exactly what the experimental feature reports - every value, 1 included (a limit of 1
+// means: one overflow stream), 0 when unset
+//@ extern go.opentelemetry.io/otel/sdk/metric/internal/x Feature.Lookup() (v int, ok bool)
+//@   pure
+//@   trusted "reads OTEL_GO_X_CARDINALITY_LIMIT from the process environment: used as a deterministic function within one call (assumed)"
+//@ func (i *inserter[N]) cachedAggregator$1() (r aggVal[$N])
+//@   prop C12
+//@   instances int64; float64
+//@   acquires pipeline.Mutex
+//@   overflow assumed
+//@   unchecked frame,no-panic aggregate construction, pipeline registration and the reservoir selector are outside the contracts
+//@   assert@call inserter.aggregateFunc#1 : $arg1.AggregationLimit == fst(x.CardinalityLimit.Lookup()) && $arg1.Filter == stream.AttributeFilter && $arg2 == stream.Aggregation && $arg3 == kind
 
 // PeriodicReader.Shutdown, the body run by shutdownOnce: the exporter is shut down EXACTLY ONCE on every path - whether or not
 // the final flush succeeded (the Once is consumed, so nothing could repair a skipped exporter shutdown later) - and the reader
